@@ -212,7 +212,7 @@ ROWS = {
        'map to distinct option codes, longest-prefix lookup is correct, getopt separates options as given, raw '
        'sends/prints exactly; every class of pyipmi.errors and a socket time-out, raised by open, a request or close, ends main() with a message and status 1 (error_classes_complete, all_errors_exit_nonzero, main_reports_every_failure); numeric arguments are accepted in decimal and hex at every converting position; the printing handlers raise no Python error on a link-less channel, every SDR type of IPMI ch. 43, sensors flagged unavailable and raw values outside the domain of a non-linear function; as-shipped counter-example theorems for each. Tie: main() run in-process for every entry against the direct API '
        'call on an identical BMC stub.',
-  note='translator harness/translate/cli.py (also reads the except clauses and where close() sits, the classes of errors.py, every int(args[k][, 0]), the handler guards and caught classes, the SDR class table; the hypotheses exitsCover, closeInside, base10Args = [] and the handler guards are evaluated on today's source by the driver's probe on every run); getopt/int(s,0) modelled in Lean and tied to CPython by the run; stub BMC profiles full / minimal / plain / sdrtypes / nonlinear / unavailable with an HPM.1 upgrade agent; a traceback is not counted as a message; "completes '
+  note='translator harness/translate/cli.py (also reads the except clauses and where close() sits, the classes of errors.py, every int(args[k][, 0]), the handler guards and caught classes, the SDR class table; the hypotheses exitsCover, closeInside, base10Args = [] and the handler guards are evaluated on today\'s source by the driver\'s probe on every run); getopt/int(s,0) modelled in Lean and tied to CPython by the run; stub BMC profiles full / minimal / plain / sdrtypes / nonlinear / unavailable with an HPM.1 upgrade agent; a traceback is not counted as a message; "completes '
        'without a Python error" is checked per entry on the stub profiles (a Python error on a fault-free run is a violation), not proved; histories of 2..4 consecutive main() runs in one process with every option given in one run and absent in the next: each run must equal the same run alone in a new process',
   tech='Lean 4 proof (decide +kernel over generated table; lookup/getopt lemmas) + translator + differential correspondence (CLI vs API)'),
  'C07': dict(
